@@ -828,7 +828,18 @@ struct Pool {
                 r.signal = WIFSIGNALED(status) ? WTERMSIG(status) : 0;
                 r.timeout = r.signal == SIGALRM;
                 r.item = st->item; r.parser = st->parser; r.phase = st->phase;
-                r.errText = readFile(base + ".err", 6000).toStdString();
+                // head (where the sanitizer puts its ERROR line) + tail (SUMMARY) of the child's stderr
+                {
+                    QFile ef(QString::fromStdString(base + ".err"));
+                    if (ef.open(QIODevice::ReadOnly)) {
+                        QByteArray all = ef.size() > 64 * 1024 * 1024 ? ef.read(64 * 1024 * 1024) : ef.readAll();
+                        int ei = all.indexOf("ERROR: "); if (ei < 0) ei = all.indexOf("runtime error: ");
+                        if (ei > 200) ei -= 200; if (ei < 0) ei = 0;
+                        QByteArray head = all.mid(ei, 3000);
+                        r.errText = head.toStdString();
+                        if (all.size() > ei + 3000) r.errText += "\n[...]\n" + all.right(std::min<int>(3000, all.size() - ei - 3000)).toStdString();
+                    }
+                }
             }
             // fold this child's shared counters into the parent-side totals
             for (int i = 0; i < 512; i++) { if (i < 8) { if (st->counters[i] > totals[i]) totals[i] = st->counters[i]; } else totals[i] += st->counters[i]; st->counters[i] = 0; }   // slotv 0..7 fold by max, the rest by sum
